@@ -1,8 +1,8 @@
 #!/verif/.venv/bin/python
 # Replay of a solver counterexample against the unmodified code (no shims).
-# property=C05 kernel=ham label=ham:offdiag
+# property=C05 kernel=ham label=ham:diag
 import sys
 sys.path[:0] = ['/repo' + "/pulser-core", '/repo' + "/pulser-simulation", "/verif"]
 from symx.replay import replay
-sys.exit(replay(check='checks.c05', kernel='ham', shape={'program': 'two_local_same_env'},
-                assignment={'a0': '1/2', 'd0': '-1/4', 'a1': '1/2', 'd1': '1/4'}, label='ham:offdiag'))
+sys.exit(replay(check='checks.c05', kernel='ham', shape={'program': 'eom'},
+                assignment={'a0': '1/1024', 'd0': '-7/128', 'a1': '1/2', 'd1': '2507/128', 'a2': '1/2', 'd2': '1/2'}, label='ham:diag'))
